@@ -5,6 +5,7 @@ pub fn run(args: &[String]) {
     match args.first().map(|s| s.as_str()) {
         Some("settings") => settings_grid(args.get(1).map(|s| s.as_str()).unwrap_or("quick")),
         Some("alnum") => alnum_ranges(),
+        Some("identend") => ident_end(&args[1]),
         _ => {
             eprintln!("unknown unit");
             std::process::exit(2);
@@ -59,5 +60,29 @@ fn alnum_ranges() {
             }
             _ => {}
         }
+    }
+}
+
+/// both identifier-end routines on `<offset> <hex>` lines: prints `<offset> <hex> <generic> <avx2|->`
+fn ident_end(file: &str) {
+    use std::io::{BufRead, Write};
+    let f = std::fs::File::open(file).expect("input file");
+    let out = std::io::stdout();
+    let mut w = std::io::BufWriter::new(out.lock());
+    for line in std::io::BufReader::new(f).lines() {
+        let line = line.unwrap();
+        let p: Vec<&str> = line.split_whitespace().collect();
+        if p.len() != 2 {
+            continue;
+        }
+        let off: usize = p[0].parse().unwrap();
+        let bytes = unhex(p[1]);
+        let Ok(s) = String::from_utf8(bytes) else { continue };
+        if !s.is_char_boundary(off) {
+            continue;
+        }
+        let g = pasfmt_core::defaults::lexer::verif_ident_end_generic(&s, off);
+        let a = pasfmt_core::defaults::lexer::verif_ident_end_avx2(&s, off);
+        writeln!(w, "{} {} {} {}", off, p[1], g, a.map(|x| x.to_string()).unwrap_or("-".into())).unwrap();
     }
 }
